@@ -25,14 +25,16 @@ TECHNIQUE = ('explicit-state BFS over override-clock operation sequences on the 
              'real module state with a lock-step reference clock; exhaustive '
              'products for normalisation, marshalling and comparisons against '
              'datetime arithmetic')
-LEVEL_TEXT = ('All sequences of override operations up to the stated depth '
-              'over boundary instants and deltas are executed on the real '
-              'timeutils state (through the public functions and TimeFixture) '
-              'and every query is compared with a reference clock after every '
-              'step; the normalisation, marshalling and comparison functions '
-              'are evaluated on the complete product of instants x offsets x '
-              'margins (including the exact-equality boundary, microsecond and '
-              'negative margins), for naive, aware and ISO-string arguments.')
+LEVEL_TEXT = ('All sequences of override operations up to the stated depth over boundary '
+'instants and deltas (module functions and TimeFixture, including a cleaned-up '
+'fixture that is set up again) are executed on the real timeutils state - each '
+'node\'s state rebuilt by replaying its whole history - and every query is '
+'compared with a reference clock after every step; the normalisation, '
+'marshalling and comparison functions are evaluated on the complete product of '
+'instants x offsets x margins (including the exact-equality boundary, '
+'microsecond and negative margins), for naive, aware and ISO-string arguments, '
+'fixed offsets, named daylight-saving zones next to their transitions, and '
+'under several host time zones.')
 LEVEL_NOTE = ('Instants, offsets and margins are the listed boundary values, '
               'not all datetimes. Only the single-instant override form is '
               'driven (not the list form). Real wall-clock behaviour without '
